@@ -543,6 +543,8 @@ def _norm_slice(s: SomeSlice, n: int) -> NormalizedSlice:
     if isinstance(s, int):
         if s < 0:
             s = n + s
+        if not 0 <= s < n:
+            raise IndexError(f"index {s} is out of bounds for axis with size {n}")
         return slice(s, s + 1)
     start = _fill_if_none(s.start, 0)
     stop = _fill_if_none(s.stop, n)
